@@ -5,12 +5,16 @@ import vlib, flow, gen_trans
 import pt_common as pc
 
 gen_trans.register('mm_vmm.json')   # Go -> Gallina translation of the pageTableEntry / Frame / Page helpers (Gen/Trans_mm_vmm.v, used by Vmm/PtTrans.v)
+gen_trans.register('vmm_pdt.json')     # needed by Vmm/KernelTrans.v (oracles and lemmas of Vmm/PdtTrans.v, Vmm/MapTrans.v)
+gen_trans.register('vmm_map.json')
+gen_trans.register('vmm_kernel.json')  # "memory as state" mode: setupPDTForKernel with the section-visitor closure, its page loop, the reserved-range loop and the seams (Gen/Trans_vmm_kernel.v, Vmm/KernelTrans.v)
 from pt_common import LO, P, RW, M64, M36, KOFF, TEMP
 
 
 class C05(flow.Spec):
     prop = 'C05'
-    props_files = ['theories/Props/C05.v', 'theories/Props/C05_examples.v']
+    props_files = ['theories/Props/C05.v', 'theories/Props/C05_examples.v',
+                   'theories/Props/C05_trans.v', 'theories/Props/C05_trans_examples.v']
     model_targets = ['theories/Vmm/Pt.vo']
     pkg = 'mm/vmm'
     harness = pc.HARNESS + [os.path.join(pc.H, 'zz_verif_c05_test.go')]
@@ -25,7 +29,8 @@ class C05(flow.Spec):
         'visitElfSectionsFn seam stands for multiboot.VisitElfSections (zero-size sections are dropped there; modelled in C10)',
         'theorem domain: section pages outside top-level slot 511, section frames below 2^40, reserved range [earlyReserveLastUsed, tempMappingAddr) page aligned, inside top-level slot 510 and mapped in the boot space, allocator frames fresh (C01), zero-frame guard not yet armed (setupPDTForKernel runs before reserveZeroedFrame)',
         'sections sharing a page / touching the reserved range: agreement only (model and code both let the later mapping win)',
-        "PageDirectoryTable.Map dereferences the active root's physical address (identity-mapped in the kernel during boot)"]
+        "PageDirectoryTable.Map dereferences the active root's physical address (identity-mapped in the kernel during boot)",
+        "translation tie of setupPDTForKernel (C05_setup_kernel_is_translation): gen/gotrans's memory mode (ext_mem.go, config vmm_kernel.json) + Lib/GoOps.v / Lib/GoVisit.v; the closure handed to visitElfSectionsFn runs once per item of the parameter `sections` - that multiboot.VisitElfSections delivers exactly the non-empty ELF sections in order is C10's subject, not part of this tie; kernelPDT.Init/Map/Activate, translateFn, mm.AllocFrame are seams whose oracles are the model's pdt_init/pdt_map/pdt_activate on the kernel slot (tied by C04_pdt_*_is_translation), translate and the allocator oracle; fuel above every section's page count and the reserved range's (an artefact of loop translation); 64-bit offset / addresses / sizes / cursor"]
     partial = []
 
     def gen_cases(self, rng, tier):
